@@ -109,6 +109,27 @@ def check_writer(ctx, m, fn: ast.FunctionDef, label: str, informational: bool = 
                 if rn.id in r:
                     bad = h
             ok = bad is None and cfg.every_path_to_passes(rn, gates=same_path_opens)
+            # A3: the temporary file must be closed (flushed) before it is renamed over the state file
+            if isinstance(on.ast, (ast.With, ast.AsyncWith)):
+                inside = any(rc is x for st_ in on.ast.body for x in ast.walk(st_))
+                ctx.ob("C14.A3-close-before-rename", rc, not inside,
+                       "%s: the temporary file is closed (the with block ended) before it is renamed" % label if not inside else
+                       "%s: %s is renamed over the state file inside the 'with open(...)' block, i.e. before the data is flushed and "
+                       "the file closed: a crash right after the rename, or an I/O error raised by the flush at close (ENOSPC), "
+                       "leaves an empty/truncated state file and the previous version is gone" % (label, psrc),
+                       construct="%s relative to the with block of %s" % (short(rc, 80), psrc))
+            else:
+                hname = None
+                st_ = source.stmt_of(oc)
+                if isinstance(st_, ast.Assign) and isinstance(st_.targets[0], ast.Name):
+                    hname = st_.targets[0].id
+                closes = [n for n in cfg.nodes if n.ast is not None and n.kind == "stmt" and any(
+                    last_attr(c) == "close" and dotted(c.func.value) == hname for c in own_calls(n.ast))] if hname else []
+                okc = bool(closes) and cfg.every_path_to_passes(rn, gates=closes)
+                ctx.ob("C14.A3-close-before-rename", rc, okc,
+                       "%s: the handle is closed on every path before the rename" % label if okc else
+                       "%s: the temporary file opened without 'with' is not provably closed before it is renamed" % label,
+                       construct="%s after close of %s" % (short(rc, 80), psrc))
             ctx.ob("C14.A2-rename-on-success-only", rc, ok,
                    "%s: the rename is reachable only after the write completed normally" % label if ok else
                    "%s: the rename of %s over the state file is reachable from the handler that swallowed a failed write "
@@ -164,6 +185,7 @@ def run(ctx) -> None:
         "byte-level outcomes at each crash point are not enumerated.")
     ctx.rule("C14.A1-temp-then-rename", "state files are written to a temporary path that is then renamed; the final path is never opened for writing")
     ctx.rule("C14.A2-rename-on-success-only", "the rename is reachable only after the write completed normally")
+    ctx.rule("C14.A3-close-before-rename", "the temporary file is closed before it is renamed over the state file")
     ctx.rule("C14.A4-serialiser-is-pure", "the serialiser does not modify the object it persists")
     ctx.rule("C14.R5-escape-agreement", "keys escaped by Status.writeToStream equal keys unescaped by Status.statusFromFile with inverse codecs; one 'key=value' line per key")
     ctx.assume("os.rename within one directory is atomic (POSIX); durability (fsync) is not part of the property")
